@@ -161,7 +161,17 @@ def run(ctx):
         back = F.trait_impl_fn("<webauthn::KnownPublicKeyCredentialParameters as core::convert::TryFrom<webauthn::PublicKeyCredentialParameters>>", "try_from")
         if ctx.oblige("C15|filtered|anchor", conv is not None and back is not None, "anchor missing: Known <-> PublicKeyCredentialParameters conversions", cfg=cfg):
             n_types += 1
-            lits_f = sorted({x.get("v") for x in H.walk(conv["body"]) if x.get("k") == "lit" and x.get("lk") == "str"})
-            lits_b = sorted({x.get("v") for x in H.walk(back["body"]) if x.get("k") == "lit" and x.get("lk") == "str"})
-            ctx.oblige("C15|filtered|type-literal", lits_f == lits_b == ["public-key"], "re-emitted type %s differs from the accepted type %s" % (lits_f, lits_b), cfg=cfg)
+            from . import sym as S
+            okf, lit_f, detail = W.reemitted_entry(F)
+            names = [n for p in back["params"] for n, _ in H.pat_bindings(p)]
+            kt = ("field", ("param", names[0]), "key_type")
+            lits_b = set()
+            try:
+                for p in S.Sym(F, back).run():
+                    for a in p.atoms:
+                        if a[0] == "eq" and a[1] == kt and a[2][0] == "lit":
+                            lits_b.add(a[2][1])
+            except S.TooManyPaths:
+                pass
+            ctx.oblige("C15|filtered|type-literal", okf and lits_b == {lit_f} == {"public-key"}, "re-emitted type %r (%s) differs from the accepted type %s" % (lit_f, detail, sorted(lits_b)), cfg=cfg)
         ctx.floor("bidirectional types", n_types, 27, cfg=cfg)
